@@ -136,7 +136,8 @@ func TestPropAggregateBypass(t *testing.T) {
 		base := make([]int, nr)      // lines held at the start of the current round
 		var hist []string
 		selfFeeding, droprawPrePassRegexReject := false, false
-		rounds := rapid.IntRange(1, 2).Draw(t, "rounds")
+		rounds := rapid.IntRange(1, 3).Draw(t, "rounds")
+		modded := false
 		totalAggLines := 0
 		c0 := h.ReadTableCounters()
 		var wantUnroutable, wantBlack int64
@@ -229,6 +230,19 @@ func TestPropAggregateBypass(t *testing.T) {
 			}
 			now += 200000
 			*b.Clock = now
+			// between rounds an operator may change a route's filter in place (modRoute): aggregate output of the next
+			// round -- the same aggregate names again -- is routed by the filters as they are then
+			if round+1 < rounds && rapid.Bool().Draw(t, "modRoute") {
+				ri := rapid.IntRange(0, nr-1).Draw(t, "modwhich")
+				nf := rapid.SampledFrom(routeFilters).Draw(t, "modfilter")
+				opts := map[string]string{"prefix": nf.Prefix, "notPrefix": nf.NotPrefix, "sub": nf.Sub, "notSub": nf.NotSub, "regex": nf.Regex, "notRegex": nf.NotRegex}
+				if err := b.Tab.UpdateRoute(m.Routes[ri].Key, opts); err != nil {
+					t.Fatalf("UpdateRoute(%s, %v): %v", m.Routes[ri].Key, opts, err)
+				}
+				m.Routes[ri].Filter = nf
+				hist = append(hist, fmt.Sprintf("modRoute(%s,%s)", m.Routes[ri].Key, nf))
+				modded = true
+			}
 		}
 		// quiescence: another tick of every aggregation must produce nothing (no loop, no amplification)
 		for ai := range m.Aggs {
@@ -247,7 +261,7 @@ func TestPropAggregateBypass(t *testing.T) {
 				c1.In, c1.Invalid, c1.Blacklist, c1.Unroutable, nraw, wantBlack, wantUnroutable, m, hist)
 		}
 		rec.Case(m.String()+" "+strings.Join(hist, ","), (selfFeeding && totalAggLines > 0) || droprawPrePassRegexReject,
-			fmt.Sprintf("self-or-chain-feeding=%v", selfFeeding), fmt.Sprintf("dropraw-prefilter-pass-regex-reject=%v", droprawPrePassRegexReject), fmt.Sprintf("agglines>0=%v", totalAggLines > 0))
+			fmt.Sprintf("self-or-chain-feeding=%v", selfFeeding), fmt.Sprintf("dropraw-prefilter-pass-regex-reject=%v", droprawPrePassRegexReject), fmt.Sprintf("agglines>0=%v", totalAggLines > 0), fmt.Sprintf("route-filter-changed-between-rounds=%v", modded))
 	})
 }
 
